@@ -344,6 +344,10 @@ func fromCtyMap(val cty.Value, target reflect.Value, path cty.Path) error {
 	switch target.Kind() {
 
 	case reflect.Map:
+		if target.Type().Key().Kind() != reflect.String {
+			// cty map keys are always strings (ToCtyValue has the same rule)
+			return likelyRequiredTypesError(path, target)
+		}
 		if val.IsNull() {
 			target.Set(reflect.Zero(target.Type()))
 			return nil
